@@ -23,8 +23,10 @@ LEVEL_TEXT = ("Theorems (Props/C05.v) for ALL shapes >= 2 and all configurations
               "V/W/F cycle; levels stay in [0,bottom]; the coarsest solve happens exactly at the bottom "
               "level = max over coarsened directions of min(user limit, #halvings); the shape at level l "
               "is n/2^min(l,count) (>= 2 cells, only even >2 directions halved); line relaxation never "
-              "runs along a two-cell direction; directions advance cyclically once per cycle. The integer "
-              "decision helpers are regenerated from solver.py on every run.")
+              "runs along a two-cell direction; directions advance cyclically once per cycle, also across the "
+              "calls of multigrid used as preconditioner (flag read off solver.py: the hand-over precedes the "
+              "termination test; otherwise refuted). The integer decision helpers are regenerated from solver.py "
+              "on every run.")
 LEVEL_NOTE = ("Trusted: Coq kernel; the ast extraction of the helpers (py2coq/solver_helpers.py, fail-closed); "
               "Model/Hierarchy.v is a hand model of multigrid()'s loop/recursion and of MGParameters' pattern "
               "parsing, tied to the code by trace correspondence (wrapping emg3d.solver.multigrid/smoothing/"
